@@ -16,7 +16,7 @@ queued are those of this datagram.  (3) Batch life-cycle: in every iteration of 
 collect_requests and both send_responses calls follow it before the next iteration or the exit.
 (4) Send loop: iterates `requests` to exhaustion (only exit = iterator exhausted; a failed send does not leave the loop), exactly
 one send_to per iteration outside any inner loop, destination / nonce / index taken from that iteration's element (C02.5).
-(5) Rejected datagrams cause none (C07.3).  The serving loop is single-threaded per worker, so its CFG covers every interleaving of arrivals.(6) "Proving its own inclusion": C02's leaf-definition and response-assembly rules (what is hashed as the leaf of a request; INDX, PATH, nonce and destination from one queued element).
+(5) Rejected datagrams cause none (C07.3; C07's size-gate rules are obligations here too: the length judged is the count recv_from returned and the receive buffer is larger than MAX_REQUEST_LENGTH).  The serving loop is single-threaded per worker, so its CFG covers every interleaving of arrivals.(6) "Proving its own inclusion": C02's leaf-definition and response-assembly rules (what is hashed as the leaf of a request; INDX, PATH, nonce and destination from one queued element).
 (7) Requests still queued in the socket get their pass: C08's wake-up rules (level-triggered registration, bounded loops).
 """
 NOT_DECIDED = "kernel delivery of the datagram"
@@ -111,6 +111,9 @@ def run(ctx):
                 ctx.check("batch-lifecycle", "send/%s-after-collect-every-iteration" % (a[2] if a[0] == "field" else "?"), okd,
                           "send_responses follows collect_requests before the next batch or the exit", "a batch can end without send_responses on %s" % fmt(a), pe.loc(bb))
 
+    # the same life-cycle as a typestate over every function of the program (helpers, callers, code after the serving loop)
+    sm.responder_typestate(ctx, W, "batch-lifecycle")
+
     # ------------------------------------------------------------------ send loop shape
     sr = ctx.fn(sm.SEND)
     sev = W.ev(sr.path)
@@ -193,6 +196,18 @@ def run(ctx):
     ctx.check("own-inclusion", "leaf-and-proof-are-this-requests(C02)", not bad2, "leaf definition and INDX/PATH assembly hold (C02: %d instances)" % len(mine2),
               "a response does not prove the inclusion of the request it answers: " + (bad2[0]["detail"] if bad2 else ""), bad2[0].get("loc") if bad2 else None)
     ctx.floor("own-inclusion", len(mine2), 8, "C02 leaf-definition / response-assembly instances")
+
+    # ------------------------------------------------------------------ "rejected datagrams cause none": which datagrams are rejected by size is C07's
+    # size-gate (the count recv_from returned is what is judged, and the buffer is larger than the largest acceptable request, so an oversized datagram
+    # is not silently cut down to an acceptable one and answered).
+    c7 = importlib.import_module("rules.C07")
+    sub7 = Ctx("C07", P, ctx.repo, "quick", ctx.feature)
+    c7.run(sub7)
+    mine7 = [i for i in sub7.instances if i["rule"] == "size-gate"]
+    bad7 = [i for i in mine7 if not i["ok"]]
+    ctx.check("rejected-cause-none", "size-gate-sees-the-real-length(C07)", not bad7, "oversized / undersized datagrams are judged by their real length (C07: %d size-gate instances)" % len(mine7),
+              "a datagram that must be rejected can be answered: " + (bad7[0]["detail"] if bad7 else ""), bad7[0].get("loc") if bad7 else None)
+    ctx.floor("rejected-cause-none", len(mine7), 4, "C07 size-gate instances")
 
     # ------------------------------------------------------------------ "every accepted request causes exactly one datagram": a request that was read is
     # answered in the same pass (batch-lifecycle above); a request that is still queued in the socket must get its pass.  C08's wake-up rules (level-
